@@ -120,6 +120,14 @@ func (g *ExprGen) Gen(t Type, depth int) Expr {
 			for i := range els {
 				els[i] = g.Gen(TNum, 0)
 			}
+			if r.Intn(4) == 0 {
+				// an index after a dot, followed by a further access: rows.0.name, m.0.1
+				k := r.Intn(n)
+				if r.Intn(2) == 0 {
+					return &EAttr{&EAttr{&EArr{[]Expr{&EArr{els}}}, &ENum{"0"}, true}, &ENum{strconv.Itoa(k)}, true}
+				}
+				return &EAttr{&EAttr{&EArr{[]Expr{&ENum{"9"}, &EHash{[]Expr{g.hashKey("k")}, []Expr{els[k]}}}}, &ENum{"1"}, true}, &EStr{"k"}, r.Intn(2) == 0}
+			}
 			if r.Intn(2) == 0 {
 				// a computed index: (k + 1) - 1
 				k := r.Intn(n)
